@@ -467,6 +467,18 @@ impl KeyKeeper {
                         }
                     };
 
+                    // a key that compute_signature would reject must not be stored, attested or
+                    // loaded: the Error::Hex text it produces embeds the key value
+                    if hex::decode(&key.key).is_err() {
+                        self.update_status_message(
+                            "Failed to acquire key details: the key value is not hex encoded."
+                                .to_string(),
+                            true,
+                        )
+                        .await;
+                        continue;
+                    }
+
                     // persist the new key to local disk
                     let guid = key.guid.to_string();
                     match Self::store_key(&self.key_dir, &key) {
